@@ -144,6 +144,7 @@ def run(run):
         accepted = 0
         from pybufrkit.dataquery import NodePathParser
         shared = NodePathParser()
+        first_only = NodePathParser(bare_id_matches_all=False)
         for rec in res.iter_emitted():
             n += 1
             s = ''.join(rec['s'])
@@ -170,6 +171,14 @@ def run(run):
                     bad3 = classify(s, spec, obs3) or (('parse', 'differs-from-fresh-parser', ''), 'outcome %r differs from a fresh parser' % (obs3,))
                     run.violation(('shared-parser', 'repeat') + tuple(bad3[0]), 'the same string parsed a second time on one parser object: %s' % bad3[1],
                                   {'string': s, 'spec': spec, 'impl': obs3, 'note': 'needs the same string parsed twice on one NodePathParser object'})
+            if spec['ok'] and obs['ok']:
+                # the print / parse round trip under the parser's other configuration (bare_id_matches_all=False: a bare ID and a
+                # missing selector mean the FIRST match, so what is printed must say "all" explicitly where all was written)
+                o1 = observe(s, first_only)
+                o2 = observe(''.join(o1['printed']), first_only) if o1['ok'] else None
+                if not o1['ok'] or not o2['ok'] or (o1['subset'], o1['comps']) != (o2['subset'], o2['comps']):
+                    run.violation(('print', 'round-trip', 'first-match-parser'), '%r parsed with bare_id_matches_all=False prints as %r, which parses as another path' % (
+                        s, ''.join(o1['printed'])), {'string': s, 'spec': spec, 'impl': o1, 'reparsed': o2, 'note': 'NodePathParser(bare_id_matches_all=False)'})
             if n in (200, 5000, 40000):
                 run.sample({'string': s, 'spec': spec, 'impl_ok': obs['ok']})
         if n != expected:
@@ -212,6 +221,13 @@ def run(run):
                 nacc += 1
                 if c['ok']:
                     run.nontriv(s)
+                    # print / parse round trip of the long expressions under both configurations of the parser
+                    for tag, prs in (('default-parser', NodePathParser()), ('first-match-parser', NodePathParser(bare_id_matches_all=False))):
+                        o1 = observe(s, prs)
+                        o2 = observe(''.join(o1['printed']), prs) if o1['ok'] else None
+                        if not o1['ok'] or not o2['ok'] or (o1['subset'], o1['comps']) != (o2['subset'], o2['comps']):
+                            run.violation(('print', 'round-trip', tag), '%r prints as %r, which parses as another path (%s)' % (s, ''.join(o1['printed']), tag),
+                                          {'string': s, 'impl': o1, 'reparsed': o2, 'note': tag})
                 continue
             if cl == 'verdict':
                 obs = c
